@@ -23,6 +23,8 @@ def _mk():
         ('Repeated', [('', '', 'takers', 'A'), ('', '', 'makers', 'A'), ('', 'pub(crate) ', 'arb', 'B'), ('', '', 'again', 'A')]),
         ('Nested', [('', '', 'outer_first', 'A'), ('', '', 'inner', 'S1'), ('', '', 'after', 'B')]),
         ('Attrs', [('#[allow(dead_code)]\n    ', '', 'quiet', 'A'), ('#[cfg(all())]\n    ', '', 'gated', 'B'), ('#[cfg(not(any()))]\n    ', 'pub ', 'also_gated', 'C'), ('', '', 'last', 'A')]),
+        ('Stacked', [('#[cfg(all())]\n    #[cfg(not(any()))]\n    ', '', 'twice_gated', 'A'), ('/// doc one\n    /// doc two\n    #[allow(dead_code)]\n    #[allow(unused)]\n    ', 'pub ', 'twice_allowed', 'B'),
+                     ('#[cfg(all())]\n    #[cfg(all())]\n    #[cfg(all())]\n    ', '', 'thrice', 'A'), ('#[cfg_attr(all(), allow(dead_code))]\n    #[doc = "x"]\n    ', '', 'mixed', 'C'), ('', '', 'plain_last', 'B')]),
         ('Five', [('', '', 'e', 'A'), ('', '', 'd', 'B'), ('', '', 'c', 'C'), ('', '', 'b', 'D'), ('', '', 'a', 'E')]),
         ('Six', [('', '', 'n1', 'A'), ('', '', 'n10', 'B'), ('', '', 'n2', 'A'), ('', '', 'inner_set', 'S1'), ('', '', 'n3', 'C'), ('', '', 'r#type', 'B')]),
         ('Seven', [('', '', 'g', 'A'), ('', '', 'a', 'B'), ('', '', 'f', 'C'), ('', '', 'b', 'D'), ('', '', 'e', 'E'), ('', '', 'c', 'F'), ('', '', 'd', 'G')]),
@@ -70,10 +72,12 @@ def dictionary_shapes(repo):
         _dict_done.add((repo, w))
         ident = re.sub(r'\W', '_', w.strip())
         fname = ident if (re.fullmatch(r'[a-z_][a-z0-9_]*', ident) and ident not in KEYWORDS) else 'plain%d' % k
+        stacked = {'cfg': '#[cfg(all())]\n    #[cfg(all())]\n    ', 'cfg_attr': '#[cfg_attr(all(), allow(dead_code))]\n    #[cfg_attr(all(), allow(unused))]\n    ',
+                   'allow': '#[allow(dead_code)]\n    #[allow(unused)]\n    ', 'doc': '#[doc = "a"]\n    #[doc = "b"]\n    ', 'deprecated': '#[deprecated]\n    '}.get(w.strip(), '')
         fields = [('', '', 'first', 'A'),
                   ('/// %s: this member %s a step now and then (%s)\n    ' % (w, w, w), 'pub ', 'documented', 'B'),
                   ('#[doc = "%s"]\n    ' % w, '', 'attributed', 'C'),
-                  ('', '', fname, 'A'),
+                  (stacked, '', fname, 'A'),
                   ('', '', 'last', 'D')]
         for macro, member in (('AgentSet', 'Agent'), ('MarketAgentSet', 'MarketAgent')):
             sh = {'name': ('M' if macro.startswith('Market') else 'S') + 'Dict%d' % k, 'macro': macro, 'member': member, 'fields': fields, 'oneline': False, 'dictionary_word': w}
